@@ -41,7 +41,7 @@ let parse_cfg cfg toks =
   | _ -> failwith "bad cfg line"
 
 let empty_state = { lends = []; borrows = []; sstats = []; bnk = { bal = []; sup = [] }; lctr = BinNums.Z0; bctr = BinNums.Z0; prices = [];
-                    killed = []; depr = [] }
+                    killed = []; depr = []; v1 = [] }
 
 (* one projection line into the observed state *)
 let obs_line (st : state) toks : state =
@@ -80,8 +80,9 @@ let obs_line (st : state) toks : state =
   | "ct" :: a :: b :: [] -> { st with lctr = z a; bctr = z b }
   | "fl" :: rest ->
     let (kl, rest) = take_list rest in
-    let (dp, _) = take_list rest in
-    { st with killed = kl; depr = dp }
+    let (dp, rest) = take_list rest in
+    let (v, _) = take_list rest in
+    { st with killed = kl; depr = dp; v1 = v }
   | _ -> failwith ("bad obs line: " ^ S.concat " " toks)
 
 let ints l = S.concat "," (L.map zs l)
@@ -114,7 +115,7 @@ let lines_of (obs : state) (st : state) : (string * string) list =
   L.iter (fun (d, _) -> add (Printf.sprintf "supply[%s]" (zs d)) (zs (supply st.bnk d))) obs.bnk.sup;
   L.iter (fun (a, _) -> add (Printf.sprintf "price[%s]" (zs a)) (match zget st.prices a with Some v -> zs v | None -> "-")) obs.prices;
   add "lctr" (zs st.lctr); add "bctr" (zs st.bctr);
-  add "killed" (ints (L.sort compare st.killed)); add "depreciated" (ints st.depr);
+  add "killed" (ints (L.sort compare st.killed)); add "depreciated" (ints st.depr); add "generation1_flagged" (ints (L.sort compare st.v1));
   L.rev !out
 
 let parse_op toks : string * op * string =
@@ -153,6 +154,7 @@ let parse_op toks : string * op * string =
   | "fundreserve" :: u :: a :: d :: amt :: res :: [] -> ("fundreserve", OFundReserve (z u, z a, z d, z amt), res)
   | "kill" :: adm :: app :: on :: res :: [] -> ("kill", OKill (bool_of_tok adm, z app, bool_of_tok on), res)
   | "depreciate" :: p :: res :: [] -> ("depreciate", ODepreciate (z p), res)
+  | "handoverv1" :: b :: d :: dint :: ta :: pen :: ded :: res :: [] -> ("handoverv1", OHandOverV1 (z b, z d, z dint, z ta, z pen, z ded), res)
   | "setprice" :: a :: "-" :: res :: [] -> ("setprice", OSetPrice (z a, None), res)
   | "setprice" :: a :: p :: res :: [] -> ("setprice", OSetPrice (z a, Some (z p)), res)
   | _ -> failwith ("bad op: " ^ S.concat " " toks)
@@ -171,6 +173,7 @@ let run (path : string) =
   let dead = ref false in               (* model and implementation diverged: stop diffing this case *)
   let interesting = ref false in
   let tainted = ref false in            (* a message of known-finding class 2 succeeded earlier in this case *)
+  let tainted4 = ref false in           (* a generation-1 hand-over (class 4) went through earlier in this case *)
   let sig_ = Buffer.create 1024 in
   let end_case () =
     if !case <> "" then begin
@@ -192,6 +195,7 @@ let run (path : string) =
   let check_props kind o res =
     let obs = !cur_obs and pre = !pre_obs in
     if res = "ok" && kf_C08_2 pre o then begin tainted := true; bump "kf_C08_2:hand_over_deletes_live_lend_record" end;
+    if res = "ok" && kf_C08_4 pre o then begin tainted4 := true; interesting := true; bump "kf_C08_4:generation1_hand_over_keeps_principal_in_totals" end;
     if kind = "handover" && res = "ok" then begin
       (match o with
        | OHandOver (j, _, _) ->
@@ -229,9 +233,9 @@ let run (path : string) =
      | OAucBid (_, d) -> bump ("aucbid:" ^ zs d)
      | _ -> ());
     if not (holds_C08_lend obs) then
-      predfail ~case:!case ~step:!step ~pred:"holds_C08_lend" ~kf:(if !tainted then "kf_C08_2" else "none") ~detail:("after_" ^ kind);
+      predfail ~case:!case ~step:!step ~pred:"holds_C08_lend" ~kf:(if !tainted then "kf_C08_2" else if !tainted4 then "kf_C08_4" else "none") ~detail:("after_" ^ kind);
     if not (holds_C08_borrow !cfg obs) then
-      predfail ~case:!case ~step:!step ~pred:"holds_C08_borrow" ~kf:"none" ~detail:("after_" ^ kind);
+      predfail ~case:!case ~step:!step ~pred:"holds_C08_borrow" ~kf:(if !tainted4 then "kf_C08_4" else "none") ~detail:("after_" ^ kind);
     if not (holds_C08_avail obs) then
       predfail ~case:!case ~step:!step ~pred:"holds_C08_avail" ~kf:"none" ~detail:("after_" ^ kind);
     (* Side invariant (C08-F1 repaired): no position hangs on a lend position of another asset than its pair's asset in *)
@@ -291,7 +295,7 @@ let run (path : string) =
       | "case" :: id :: _ ->
         end_case ();
         case := id; model := empty_state; pre_obs := empty_state; cur_obs := empty_state; pending := None;
-        have_init := false; step := 0; dead := false; interesting := false; tainted := false; Buffer.clear sig_
+        have_init := false; step := 0; dead := false; interesting := false; tainted := false; tainted4 := false; Buffer.clear sig_
       | "op" :: dt :: rest ->
         incr step; incr steps;
         let (kind, o, res) = parse_op rest in
